@@ -70,7 +70,7 @@ def strategy(tier):
 
 
 def hyp_examples(tier):
-    return 64 if tier == "quick" else 4000
+    return 160 if tier == "quick" else 4000
 
 
 def enum_units(tier, seed):
